@@ -805,20 +805,16 @@ EGLPNUM_TYPENAME_QSLIB_INTERFACE EGLPNUM_TYPENAME_QSdata *EGLPNUM_TYPENAME_QScop
 	{
 		ILL_UTIL_STR (p2->qslp->objname, p->qslp->objname);
 	}
-	else
+	if (p2->qslp->objname != 0)
 	{
-		strcpy (buf, "obj");
-		rval = ILLsymboltab_uname (&p2->qslp->rowtab, buf, "", NULL);
+		if (p2->qslp->rowtab.tablesize == 0) {
+			ILLsymboltab_create(&p2->qslp->rowtab, 100);
+		}
+		rval = ILLsymboltab_register (&p2->qslp->rowtab, p2->qslp->objname,
+																	-1, &pindex, &hit);
+		rval = rval || hit;
 		CHECKRVALG (rval, CLEANUP);
-		ILL_UTIL_STR (p2->qslp->objname, buf);
 	}
-	if (p2->qslp->rowtab.tablesize == 0) {
-		ILLsymboltab_create(&p2->qslp->rowtab, 100);
-	}
-	rval = ILLsymboltab_register (&p2->qslp->rowtab, p2->qslp->objname,
-																-1, &pindex, &hit);
-	rval = rval || hit;
-	CHECKRVALG (rval, CLEANUP);
 
 	ILLstring_reporter_copy (&p2->qslp->reporter, &p->qslp->reporter);
 
